@@ -252,3 +252,50 @@ def prune_cache(cap_bytes=None):
                 pass
         freed += size
     return freed
+
+
+def stable_failures(crate_dir, crate_name, features=(), cfgs=(), attribute=None, max_rounds=6):
+    """Type-check the crate with the DEFAULT (stable) toolchain as well — the one users build with. proc_macro2 behaves
+    differently there (no `Span::join`: the span of a multi-token node is the span of its FIRST token), which matters
+    for macro hygiene. Returns {module: [diagnostics]} of modules that fail to compile; cached by content."""
+    import hashlib
+    os.makedirs(FACTS, exist_ok=True)
+    h = hashlib.sha256()
+    for part in (repo_hash(), aux_hash(), _crate_hash(crate_dir), "stable", ",".join(features), " ".join(cfgs), crate_name):
+        h.update(part.encode())
+        h.update(b"|")
+    cached = os.path.join(FACTS, h.hexdigest()[:32] + ".stable.json")
+    if os.path.exists(cached) and not os.environ.get("VERIF_NO_CACHE"):
+        try:
+            os.utime(cached, None)
+        except OSError:
+            pass
+        with open(cached) as f:
+            return json.load(f)
+    skips = []
+    failures = {}
+    for _ in range(max_rounds):
+        flags = "-Awarnings " + " ".join("--cfg %s" % c for c in list(cfgs) + ["skip_" + m for m in skips])
+        cmd = ["cargo", "check", "--offline", "--message-format=json"]
+        if features:
+            cmd += ["--features", ",".join(features)]
+        p = sh(cmd, cwd=crate_dir, env={"RUSTFLAGS": flags, "CARGO_TARGET_DIR": os.path.join(os.path.dirname(FACTS), "target-stable")}, timeout=1800)
+        diags = [d for d in parse_cargo_json(p.stdout)]
+        errors = [d for d in diags if d["level"] == "error"]
+        if p.returncode == 0 or not errors:
+            break
+        newly = set()
+        for d in errors:
+            for sp in d["spans"]:
+                if sp["primary"]:
+                    m = attribute(sp) if attribute else module_of_file(sp["file"])
+                    if m:
+                        failures.setdefault(m, []).append(d)
+                        newly.add(m)
+        newly -= set(skips)
+        if not newly:
+            break
+        skips += sorted(newly)
+    with open(cached, "w") as f:
+        json.dump(failures, f)
+    return failures
